@@ -391,6 +391,14 @@ func (mem *CListMempool) resCbFirstTime(
 				return
 			}
 
+			// The cache that filters repeated transactions is bounded
+			// independently of the pool (and can be disabled), so it may have
+			// forgotten a transaction that is still in the pool: never add it twice.
+			if e, ok := mem.txsMap.Load(types.Tx(tx).Key()); ok {
+				e.(*clist.CElement).Value.(*mempoolTx).senders.LoadOrStore(peerID, true)
+				return
+			}
+
 			memTx := &mempoolTx{
 				height:    mem.height,
 				gasWanted: r.CheckTx.GasWanted,
